@@ -167,6 +167,11 @@ def runQueue (prop : String) (f : List String) (obsS : String) : Verdict :=
     | _, _ => badCase
   | _ => badCase
 
+/-- zero-capacity queue: outside the model; only absence of panics / blocking is checked (C20) -/
+def runQueue0 (_prop : String) (_f : List String) (obsS : String) : Verdict :=
+  let bad := (obsS.splitOn ";").any fun o => o.startsWith "panic" || o.startsWith "blocked"
+  ⟨true, "", "", if bad then some ("C20", "a zero-capacity queuing sink panicked or blocked a caller") else none, ["queue-capacity-0"], false⟩
+
 def runStress (_prop : String) (_f : List String) (obsS : String) : Verdict :=
   if obsS == "ok" then ⟨true, "ok", "ok", none, ["stress"], false⟩
   else
